@@ -223,3 +223,31 @@ Proof. induction l as [|b l IH]; intros xs a x idx i H Ha; inversion H; subst; c
 Lemma rel_argmax l xs : Forall2 rel l xs -> argmax LogER l = argmax LinR xs.
 Proof. intro H. destruct H as [|a x l xs Ha H]; cbn [argmax]; [reflexivity|].
   rewrite (rel_isnan _ _ Ha), LinR_isnan. now apply rel_argmax_go. Qed.
+
+(** ** C12: the operation-level statement, collected *)
+Theorem homomorphism_ops :
+  rel (s_id LogER) (s_id LinR) /\ rel (s_null LogER) (s_null LinR) /\
+  (forall a x b y, rel a x -> rel b y -> rel (s_comb LogER a b) (s_comb LinR x y)) /\
+  (forall a x b y, rel a x -> rel b y -> y <> 0 -> rel (s_ratio LogER a b) (s_ratio LinR x y)) /\
+  (forall a x b y, rel a x -> rel b y -> (y <> 0 \/ x = 0) -> rel (ratio0 LogER a b) (ratio0 LinR x y)) /\
+  (forall l xs, Forall2 rel l xs -> rel (s_rsum LogER l) (s_rsum LinR xs)) /\
+  (forall l xs, Forall2 rel l xs -> rel (s_msum LogER l) (s_msum LinR xs)) /\
+  (forall f v x, 0 < f -> rel v x -> rel (s_geom LogER (EFin f) v) (s_geom LinR f x)) /\
+  (forall l xs, Forall2 rel l xs -> rel (npmax LogER l) (npmax LinR xs)) /\
+  (forall a x b y, rel a x -> rel b y -> s_leb LogER a b = s_leb LinR x y) /\
+  (forall l xs, Forall2 rel l xs -> argmax LogER l = argmax LinR xs) /\
+  (forall x, 0 <= x -> rel (s_oflin LogER (EFin x)) (s_oflin LinR x)).
+Proof. split; [exact rel_id|]. split; [exact rel_null|]. split; [exact rel_comb|]. split; [exact rel_ratio|].
+  split; [exact rel_ratio0|]. split; [exact rel_rsum|]. split; [exact rel_msum|]. split; [exact rel_geom|].
+  split; [exact rel_npmax|]. split; [exact rel_leb|]. split; [exact rel_argmax|exact rel_oflin]. Qed.
+
+Lemma C12_example :
+  Forall proper [ENInf; EFin 0; EFin 1] /\
+  logsumexpER [ENInf; EFin 0; EFin 1] = EFin (ln (0 + (exp 0 + (exp 1 + 0)))) /\
+  rel (EFin 0) 1 /\ rel ENInf 0.
+Proof. assert (Hp : Forall proper [ENInf; EFin 0; EFin 1]).
+  { constructor; [now left|]. constructor; [right; eauto|]. constructor; [right; eauto|constructor]. }
+  split; [exact Hp|]. split; [|split; [rewrite <- exp_0; apply rel_fin|apply rel_ninf]].
+  rewrite logsumexp_correct by exact Hp. unfold elog, sumlin. cbn [fold_right lin].
+  destruct (Req_EM_T _ 0) as [E|_]; [|reflexivity].
+  exfalso. pose proof (exp_pos 0). pose proof (exp_pos 1). lra. Qed.
